@@ -115,7 +115,80 @@ fn build(shape: &str, n: usize, last: usize) -> (Vec<Rc<SNode>>, usize) {
     }
 }
 
+// ----------------------------------------------------------------------
+// C16 / C05 at group sizes the history explorer cannot reach: members whose
+// destructors touch the handles they store to peers of the same (large) group
+// ----------------------------------------------------------------------
+
+static UPGRADE_SOME: AtomicUsize = AtomicUsize::new(0);
+static CLONER: AtomicUsize = AtomicUsize::new(usize::MAX);
+
+struct BNode {
+    id: usize,
+    next: RefCell<Vec<Rc<BNode>>>,
+    wnext: RefCell<Option<cactusref::Weak<BNode>>>,
+}
+
+impl Drop for BNode {
+    fn drop(&mut self) {
+        DROPPED.fetch_add(1, Ordering::Relaxed);
+        // a Weak to the successor, which belongs to the group being collected: must be dead
+        if let Some(w) = self.wnext.borrow().as_ref() {
+            if w.upgrade().is_some() {
+                UPGRADE_SOME.fetch_add(1, Ordering::Relaxed);
+            }
+        }
+        if CLONER.load(Ordering::Relaxed) == self.id {
+            // cloning a handle to a peer of the dying group must end the process here
+            let c = self.next.borrow().first().map(Rc::clone);
+            println!("AFTER-CLONE {}", c.is_some());
+            std::mem::forget(c);
+        }
+        // explicitly drop the stored handles to peers: must have no effect at all
+        let hs: Vec<Rc<BNode>> = std::mem::take(&mut *self.next.borrow_mut());
+        for h in hs {
+            drop(h);
+        }
+    }
+}
+
+fn run_big(n: usize, cloner: usize) -> String {
+    DROPPED.store(0, Ordering::Relaxed);
+    CLONER.store(cloner, Ordering::Relaxed);
+    let mk = |id: usize| Rc::new(BNode { id, next: RefCell::new(Vec::new()), wnext: RefCell::new(None) });
+    let tail = mk(n - 1);
+    let mut cur = Rc::clone(&tail);
+    for i in (0..n - 1).rev() {
+        let m = mk(i);
+        *m.wnext.borrow_mut() = Some(Rc::downgrade(&cur));
+        unsafe { Rc::adopt_unchecked(&m, &cur) };
+        m.next.borrow_mut().push(cur);
+        cur = m;
+    }
+    *tail.wnext.borrow_mut() = Some(Rc::downgrade(&cur));
+    let head2 = Rc::clone(&cur);
+    unsafe { Rc::adopt_unchecked(&tail, &head2) };
+    tail.next.borrow_mut().push(head2);
+    let outside: Vec<cactusref::Weak<BNode>> = vec![Rc::downgrade(&tail), Rc::downgrade(&cur)];
+    drop(tail);
+    let before = DROPPED.load(Ordering::Relaxed);
+    drop(cur);
+    let destroyed = DROPPED.load(Ordering::Relaxed);
+    let alive_after = outside.iter().filter(|w| w.upgrade().is_some()).count();
+    format!(
+        "{{\"shape\": \"big\", \"n\": {n}, \"cloner\": {}, \"destroyed_before_final_drop\": {before}, \"destroyed\": {destroyed}, \"upgrade_some_in_destructors\": {}, \"members_alive_after\": {alive_after}}}",
+        if cloner == usize::MAX { -1 } else { cloner as i64 },
+        UPGRADE_SOME.load(Ordering::Relaxed)
+    )
+}
+
 fn run_case(shape: String, n: usize, last: usize) -> String {
+    if shape == "bigdrop" {
+        return run_big(n, usize::MAX);
+    }
+    if shape == "bigclone" {
+        return run_big(n, last);
+    }
     DROPPED.store(0, Ordering::Relaxed);
     let (mut handles, adoptions) = build(&shape, n, last);
     let final_handle = handles.pop().unwrap();
@@ -161,6 +234,7 @@ fn main() {
             }
         }
         Some("sweep") => std::process::exit(sweep(&args)),
+        Some("bigsweep") => std::process::exit(big_sweep(&args)),
         _ => {
             eprintln!("usage: scale case <shape> <n> <last> | scale sweep --tier T --out F");
             std::process::exit(2);
@@ -168,11 +242,73 @@ fn main() {
     }
 }
 
+/// one case in a child process, killed after `timeout_s` (exit code -999)
+fn run_child(exe: &std::path::Path, shape: &str, n: usize, last: usize, timeout_s: u64) -> (i32, String) {
+    use std::io::Read;
+    use std::os::unix::process::ExitStatusExt;
+    let mut child = Command::new(exe)
+        .args(["case", shape, &n.to_string(), &last.to_string()])
+        .stdout(std::process::Stdio::piped())
+        .stderr(std::process::Stdio::null())
+        .spawn()
+        .unwrap();
+    let t0 = Instant::now();
+    loop {
+        match child.try_wait().unwrap() {
+            Some(st) => {
+                let mut out = String::new();
+                let _ = child.stdout.take().unwrap().read_to_string(&mut out);
+                let code = st.code().unwrap_or_else(|| -(st.signal().unwrap_or(0)));
+                return (code, out.trim().to_string());
+            }
+            None => {
+                if t0.elapsed().as_secs() >= timeout_s {
+                    let _ = child.kill();
+                    let _ = child.wait();
+                    return (-999, String::new());
+                }
+                std::thread::sleep(std::time::Duration::from_millis(5));
+            }
+        }
+    }
+}
+
+fn big_sweep(args: &[String]) -> i32 {
+    let out = arg_value(args, "--out").expect("--out");
+    let exe = std::env::current_exe().unwrap();
+    let sizes = [2usize, 3, 5, 16, 31, 32, 33, 34, 40, 63, 64, 65, 100, 257, 1000];
+    let mut j = String::from("{\n \"cases\": [\n");
+    let mut first = true;
+    for &n in &sizes {
+        let mut cases: Vec<(&str, usize)> = vec![("bigdrop", 0)];
+        for k in [0, n / 2, n - 1] {
+            if !cases.iter().any(|c| c.0 == "bigclone" && c.1 == k) {
+                cases.push(("bigclone", k));
+            }
+        }
+        for (shape, k) in cases {
+            let (code, line) = run_child(&exe, shape, n, k, 60);
+            let json_line = line.lines().rev().find(|l| l.starts_with('{')).unwrap_or("null").to_string();
+            let after_clone = line.contains("AFTER-CLONE");
+            if !first {
+                j.push_str(",\n");
+            }
+            first = false;
+            j.push_str(&format!("  {{\"shape\": \"{shape}\", \"n\": {n}, \"k\": {k}, \"exit\": {code}, \"printed_after_clone\": {after_clone}, \"result\": {json_line}}}"));
+        }
+    }
+    j.push_str("\n ]\n}\n");
+    std::fs::write(out, j).unwrap();
+    0
+}
+
 fn sweep(args: &[String]) -> i32 {
     let tier = arg_value(args, "--tier").unwrap_or_else(|| "quick".into());
     let out = arg_value(args, "--out").expect("--out");
     let exe = std::env::current_exe().unwrap();
     let max_pow = if tier == "quick" { 14 } else { 18 };
+    // a case normally takes well under a second; one that needs a minute is reported, not waited for
+    let case_timeout: u64 = if tier == "quick" { 60 } else { 240 };
     let mut cases: Vec<(String, usize, usize)> = Vec::new();
     for shape in ["ring", "ringself", "ringchord"] {
         for n in 1..=64usize {
@@ -201,10 +337,7 @@ fn sweep(args: &[String]) -> i32 {
                     break;
                 }
                 let (shape, n, last) = &cases[i];
-                let o = Command::new(&exe).args(["case", shape, &n.to_string(), &last.to_string()]).output().unwrap();
-                use std::os::unix::process::ExitStatusExt;
-                let code = o.status.code().unwrap_or_else(|| -(o.status.signal().unwrap_or(0)));
-                let line = String::from_utf8_lossy(&o.stdout).trim().to_string();
+                let (code, line) = run_child(&exe, shape, *n, *last, case_timeout);
                 results.lock().unwrap().push((i, line, code));
             });
         }
